@@ -32,7 +32,7 @@ for c in man["checks"]:
                 slow.append((o["seconds"], o["obligation"], o["solver"]))
 seen = set()
 rows.append("")
-rows.append("Obligations that took 10 s or more on the last quick run (budget 60 s; timeouts retried with 120 s and, when at most four remain, once more with 240 s):")
+rows.append("Obligations that took 10 s or more on the last quick run (budget 60 s; timeouts retried with 120 s and, when at most three remain, once more with 180 s):")
 rows.append("")
 for sec, ob, sv in sorted(slow, reverse=True):
     if ob in seen:
